@@ -6,6 +6,7 @@ import (
 	"context"
 	"fmt"
 	"log/slog"
+	"sync"
 
 	"github.com/deckhouse/deckhouse/pkg/log"
 	v1 "k8s.io/api/core/v1"
@@ -30,6 +31,9 @@ type namespaceInformer struct {
 
 	addFn func(string)
 	delFn func(string)
+	// cbMu serializes addFn and delFn calls: events are handled one by one,
+	// deleteMissing comes from another goroutine.
+	cbMu sync.Mutex
 }
 
 func NewNamespaceInformer(ctx context.Context, client *klient.Client, monitor *MonitorConfig) *namespaceInformer {
@@ -98,7 +102,9 @@ func (ni *namespaceInformer) OnAdd(obj interface{}, _ bool) {
 	nsObj := obj.(*v1.Namespace)
 	log.Debug("NamespaceInformer: Added ns", slog.String("name", nsObj.Name))
 	if ni.addFn != nil {
+		ni.cbMu.Lock()
 		ni.addFn(nsObj.Name)
+		ni.cbMu.Unlock()
 	}
 }
 
@@ -116,7 +122,25 @@ func (ni *namespaceInformer) OnDelete(obj interface{}) {
 	nsObj := obj.(*v1.Namespace)
 	log.Debug("NamespaceInformer: Deleted ns", slog.String("name", nsObj.Name))
 	if ni.delFn != nil {
+		ni.cbMu.Lock()
 		ni.delFn(nsObj.Name)
+		ni.cbMu.Unlock()
+	}
+}
+
+// deleteMissing reports namespaces that are not known to the started informer as deleted.
+// A namespace listed by createSharedInformer may be deleted or may stop matching the selector
+// before the informer is started: no Deleted event will ever come for it.
+func (ni *namespaceInformer) deleteMissing(nsNames []string) {
+	if ni.SharedInformer == nil || ni.delFn == nil || !ni.SharedInformer.HasSynced() {
+		return
+	}
+	ni.cbMu.Lock()
+	defer ni.cbMu.Unlock()
+	for _, nsName := range nsNames {
+		if _, exists, err := ni.SharedInformer.GetStore().GetByKey(nsName); err == nil && !exists {
+			ni.delFn(nsName)
+		}
 	}
 }
 
